@@ -76,6 +76,10 @@ def shapes(tier):
         [P("x"), P("method", "K")],
         [P("x"), P("method", "K", default=True)],
         [P("TARGS"), P("KWARGS", default=True)],
+        [P("data"), P("type", typeann=True)],
+        [P("data"), P("type", "K", typeann=True)],
+        [P("type"), P("data")],
+        [P("subtler_type"), P("t", typeann=True)],
         [P("OVLD"), P("MISSING", "K", default=True)],
     ]
     for m in one:
